@@ -10,6 +10,7 @@ is a deadlock.  The dynamic half of the check (stream `conc`) records every
 compares replies and final state with a one-at-a-time twin.
 -/
 import KrillModel.Locks.Model
+import KrillModel.Generated.LockSites
 namespace KM.Props.C18
 open KM.Locks
 
@@ -145,8 +146,46 @@ theorem krill_nesting_ranked :
     edgeOk (.scope .taProxy) (.root .tasks) = true ∧ edgeOk (.scope .taSigner) (.root .keys) = true ∧
     edgeOk (.scope .cas) (.scope .cas) = false ∧ edgeOk (.root .tasks) (.scope .cas) = false ∧
     edgeOk (.root .caObjects) (.scope .cas) = false ∧ edgeOk .rsync .pubdUpdate = false ∧
-    edgeOk (.scope .status) (.scope .cas) = false := by
+    edgeOk (.scope .status) (.scope .cas) = false ∧
+    -- the history cache is taken first and held over every entity-store read; the status cache
+    -- over the status write; neither may be requested by a thread inside a store transaction
+    edgeOk .historyCache (.root .cas) = true ∧ edgeOk .historyCache (.scope .cas) = true ∧
+    edgeOk .historyCache (.scope .pubd) = true ∧
+    edgeOk .statusCache (.root .status) = true ∧ edgeOk .statusCache (.scope .status) = true ∧
+    edgeOk (.scope .cas) .historyCache = false ∧ edgeOk (.root .cas) .historyCache = false ∧
+    edgeOk (.scope .cas) .statusCache = false ∧ edgeOk (.scope .status) .statusCache = false ∧
+    -- signing happens inside CA commands and the published-object store; binding a pending
+    -- signer or recording a key takes the signer store from inside the router
+    edgeOk (.scope .cas) .signerPending = true ∧ edgeOk (.root .caObjects) .signerPending = true ∧
+    edgeOk .signerPending .signerHandle = true ∧ edgeOk .signerPending (.root .signers) = true ∧
+    edgeOk .signerHandle (.scope .signers) = true ∧ edgeOk (.scope .signers) .signerPending = false := by
   decide
+
+/-- The lock sites of the source as the translator found them on this run. -/
+def sourceSites : List Site :=
+  KM.Generated.lockSites.map fun s => ⟨s.lock, s.held, s.annotated, s.exempt⟩
+
+/-- Tie to the source: every site of a lock that is somewhere held over later statements is
+seen by the lock-order recorder (regenerated from `/repo/src` on every run). -/
+theorem source_lock_sites_annotated : sitesOk sourceSites = true := by
+  decide
+
+/-- What the rule buys: a site of a non-leaf lock that passes is annotated or exempt. -/
+theorem sitesOk_spec (sites : List Site) (h : sitesOk sites = true) (s : Site) (hs : s ∈ sites)
+    (t : Site) (ht : t ∈ sites) (hl : t.lock = s.lock) (hh : t.held = true) :
+    s.annotated = true ∨ s.exempt = true := by
+  have h1 := List.all_eq_true.mp h s hs
+  unfold siteOk at h1
+  have hn : nonLeaf sites s.lock = true := by
+    unfold nonLeaf
+    exact List.any_eq_true.mpr ⟨t, ht, by simp [hl, hh]⟩
+  simp [hn] at h1
+  exact h1
+
+/-- The rule is not vacuous: a history-cache-like lock with one unannotated temporary site
+beside a held one is refused. -/
+example : sitesOk [⟨5, true, true, false⟩, ⟨5, false, false, false⟩] = false := by decide
+example : sitesOk [⟨5, true, true, false⟩, ⟨5, false, true, false⟩, ⟨4, false, false, false⟩] = true := by decide
 
 /-- The ranking is a strict order on lock classes: an observed edge set that passes `edgeOk`
 can be embedded in `okProg`'s premise (`∀ h ∈ held, h < l`). -/
